@@ -414,6 +414,24 @@ func c11Small(N int) {
 			rt.Check(got == want, "IsPlanar changes under relabelling")
 		}
 	}
+	// relabelling through the lazy InducedSubgraph view (vertex order reversed / rotated)
+	if n > 0 {
+		rev, rot := make([]int, n), make([]int, n)
+		for v := 0; v < n; v++ {
+			rev[v] = n - 1 - v
+			rot[v] = (v + 1) % n
+		}
+		for k, V := range [][]int{rev, rot} {
+			var base Graph = vgDense(adj)
+			if k == 1 {
+				base = vgSparse(adj)
+			}
+			got, ok := c11Call(InducedSubgraph(base, V), "relabelling view")
+			if ok {
+				rt.Check(got == want, "IsPlanar differs on a relabelling view of the graph")
+			}
+		}
+	}
 	rt.Reach("end")
 }
 
